@@ -70,6 +70,21 @@ theorem C19_no_script (lineOf : Ctx → Option Nat) (r : Rt) (hc : r.ctx = none)
 theorem C19_never_stuck (lineOf : Ctx → Option Nat) (r : Rt) (a : Action) :
     ∃ r' res, exec lineOf r a = (r', res) := ⟨_, _, rfl⟩
 
+/-- **abort on a halted VM discards *all* scripts**: the stepped script and every script it has spawned meanwhile
+(they wait in `m.spawned`, the tail of `m_contexts`); a `start` behind the abort finds nothing to run -/
+theorem C19_abort_discards_all (lineOf : Ctx → Option Nat) (r : Rt) (h : r.state = .halted ∨ r.state = .haltedError) :
+    (exec lineOf r .abort).1.ctx = none ∧ (exec lineOf r .abort).1.m.spawned = [] ∧
+    (exec lineOf (exec lineOf r .abort).1 .start).2 = .empty := by
+  have e : exec lineOf r .abort = ({ r with ctx := none, m := { r.m with spawned := [] }, state := .empty }, .ok) := by
+    show abortAct r = _
+    unfold abortAct
+    rcases h with h | h <;> simp [h]
+  rw [e]
+  refine ⟨rfl, rfl, ?_⟩
+  show (startAct _).2 = .empty
+  simp [startAct, finish, resOf]
+  split <;> rfl
+
 /-- from every state two actions suffice to reach the empty state: `abort` (if halted) — so no sequence
 of actions leaves the VM unable to start over -/
 theorem C19_can_reset (lineOf : Ctx → Option Nat) (r : Rt) :
